@@ -48,8 +48,10 @@ def heat(dgm1, dgm2, sigma=0.4):
         heat kernel distance between dgm1 and dgm2
 
     """
-    return np.sqrt(
+    dist_sq = (
         evalHeatKernel(dgm1, dgm1, sigma)
         + evalHeatKernel(dgm2, dgm2, sigma)
         - 2 * evalHeatKernel(dgm1, dgm2, sigma)
     )
+    # round-off can leave the squared norm slightly below zero
+    return np.sqrt(max(dist_sq, 0.0))
